@@ -2,6 +2,8 @@
 import os
 import random
 
+from .. import lib as vlib
+
 from ..gen import caselang, keys as gkeys
 from ..monitors import boundary
 from ..refs import ed25519
@@ -233,7 +235,8 @@ def run_files(spec, rec, lib):
     C, M = lib.common, lib.metadata_construction
     d = spec["scratch"]
     for i in range(spec["count"]):
-        base = os.path.join(d, ["key%d", "signer.%d", "5.root.%d", "a.b.c%d", "key%d.pri", "k e y %d", "cl\u00e9%d", ".hidden%d", "signer.v%d.json"][i % 9] % i)
+        names = vlib.fs_names(["key%d", "signer.%d", "5.root.%d", "a.b.c%d", "key%d.pri", "k e y %d", "cl\u00e9%d", ".hidden%d", "signer.v%d.json"])
+        base = os.path.join(d, names[i % len(names)] % i)
         # the target names may already exist (older key files of other sizes / formats, e.g. a hex-encoded key)
         pre = ["none", "longer_hex", "shorter", "same_size", "much_longer"][i % 5]
         if pre != "none":
